@@ -266,7 +266,7 @@ func (c *Check) checkOwnership(rule string) {
 			okf := false
 			if ok {
 				for _, f := range al {
-					if f == "*" || f == p.ownerName(ra.a.Fn) {
+					if f == "*" || p.aka(f) == p.ownerName(ra.a.Fn) {
 						okf = true
 					}
 				}
@@ -442,7 +442,7 @@ func (c *Check) checkSpawnJoin(rule string) {
 		}
 		found := false
 		for i, sc := range specs {
-			if p.ownerName(s.In) == sc.in {
+			if p.ownerName(s.In) == p.aka(sc.in) {
 				found = true
 				matched[i] = true
 				ok, d := sc.check(s)
